@@ -587,7 +587,7 @@ func hash(name string) uint32 {
 }
 
 func (m *mappedFile) load32(off uint32) uint32 {
-	if int64(off) >= int64(len(m.mapping.Data)) {
+	if int64(off)+4 > int64(len(m.mapping.Data)) {
 		return 0
 	}
 	return (*atomic.Uint32)(unsafe.Pointer(&m.mapping.Data[off])).Load()
